@@ -3,7 +3,7 @@
 import json, subprocess
 
 HOOK_COMMITS = ["b575948"]
-FIX_COMMITS = ["45fedb3", "1dda9ee", "786139f", "b16e8cc"]
+FIX_COMMITS = ["45fedb3", "1dda9ee", "786139f", "b16e8cc", "ae6469b"]
 
 CHECKS = {
  # id: (technique, level text, level note, design ref)
@@ -64,6 +64,12 @@ CHECKS.update({
  "C19": ("runtime monitor: catch_unwind + panic-site hook around every listed public call on every visited state, overflow checks and debug assertions on",
          "10^7-10^9 guarded engine calls over all play and setup families, turn trees and sweeps returned normally.",
          "Only the calls the statement lists are made (no step-indexed query in setup, no placement_bit in play).", "§6 C19"),
+ "C18": ("build-time auto-trait probe + runtime result oracle under multi-threaded stress + ThreadSanitizer (-Zbuild-std) + Miri many-seeds on a bare workload",
+         "The probe crate requiring Send + Sync compiled; thousands of rounds of 4-32 threads expanding shared states (Arc / borrowed with droppers / moved clones) all equalled the sequential expansion with the root unchanged; TSan and Miri were silent on the same workload.",
+         "Interleavings are sampled, not enumerated; the 'for all client programs' half is a compile-time fact observed through a build.", "§6 C18"),
+ "C20": ("subprocess monitor: exit status of children playing 1.5e5-2e6 capture-free turns on a 2 MiB thread + VmStk high-water mark vs history length, two build profiles",
+         "Children survived query/clone/drop after up to 4e5 (quick) / 2e6 (thorough) turns on the default 2 MiB stack and stack use did not grow between 1e3 and 4e5 turns.",
+         "Bounded restatement of 'for all lengths'; a child that dies for another reason makes the run inconclusive.", "§6 C20"),
 })
 
 NOT_YET = {}
